@@ -58,3 +58,188 @@ prop("C03",
      technique="bounded-exhaustive enumeration of (n, s, mode, max_time=0, entry) on the real loop counting calls per thread; loom DPOR for T in {2,3}",
      text="For every (n, s) of the grid, bench and test mode, with and without max_time = 0, on all six entry points the number of calls per thread, of recorded samples, the reserved storage in test mode and the samples/iters figures of the computed statistics are compared with s*ceil(n/T), T*ceil(n/T), 0 and their product.",
      note=LOOP_NOTE, engine="S+L")
+
+
+# ---------------------------------------------------------------------------
+# Engine L scenario lists
+# ---------------------------------------------------------------------------
+import itertools
+
+
+def _bc(n, panics=(), extend=False):
+    return {"n": n, "panics": list(panics), "extend": extend}
+
+
+def _pool(history, pb=None):
+    return {"kind": "pool", "history": history, "pb": pb}
+
+
+def _subsets(n):
+    idx = list(range(n + 1))
+    for k in range(1, n + 2):
+        for c in itertools.combinations(idx, k):
+            yield c
+
+
+def pool_scenarios(tier):
+    out = []
+    # every history over {0,1,2} with length <= 2, unbounded
+    for k in (1, 2):
+        for h in itertools.product((0, 1, 2), repeat=k):
+            out.append(_pool([_bc(n) for n in h]))
+    out.append(_pool([_bc(1), _bc(1), _bc(1)]))
+    # every panicking subset for [1] and [2], followed by a clean broadcast (workers reused)
+    for n in (1, 2):
+        for sub in _subsets(n):
+            out.append(_pool([_bc(n, sub), _bc(1)]))
+            out.append(_pool([_bc(n, sub, extend=True)]))
+    out.append(_pool([_bc(1, extend=True), _bc(2, (1,), extend=True)]))
+    out.append(_pool([_bc(2, extend=True)]))
+    out.append(_pool([_bc(3)], pb=2))
+    if tier == "thorough":
+        for h in itertools.product((0, 1, 2), repeat=3):
+            out.append(_pool([_bc(n) for n in h], pb=None if sum(h) <= 4 else 3))
+        out.append(_pool([_bc(3)]))
+        out.append(_pool([_bc(3), _bc(1)], pb=3))
+        out.append(_pool([_bc(1), _bc(3)], pb=3))
+        out.append(_pool([_bc(2), _bc(3)], pb=3))
+        out.append(_pool([_bc(4)], pb=3))
+        out.append(_pool([_bc(3), _bc(3)], pb=2))
+        out.append(_pool([_bc(4), _bc(1)], pb=2))
+        for sub in _subsets(3):
+            out.append(_pool([_bc(3, sub, extend=True)], pb=3))
+    # de-duplicate
+    seen, uniq = set(), []
+    for sc in out:
+        import json as _j
+        key = _j.dumps(sc, sort_keys=True)
+        if key not in seen:
+            seen.add(key)
+            uniq.append(sc)
+    return uniq
+
+
+def loop_case(entry, ishape, oshape, threads, n, s, **kw):
+    case = {"entry": entry, "ishape": ishape, "oshape": oshape, "test": False, "threads": threads,
+            "sample_count": n, "sample_size": s, "min_time_ns": None, "max_time_ns": None, "skip_ext": None,
+            "input_counters": 1 if entry >= 2 else 0, "inherited": [None] * 4, "bencher_counters": [],
+            "counter_after_input": False, "panic": None, "alloc": [1, 0, 2, 3, 1],
+            "cost": [[0], [0], [1000], [0], [0]], "thread_skew": 7, "read_cost": 1, "freq": 10 ** 12,
+            "precision_ps": 1000, "overhead_ps": [0, 0, 0, 0], "horizon": 100000}
+    case.update(kw)
+    return case
+
+
+def _loop(case, pb=None):
+    return {"kind": "loop", "case": case, "pb": pb}
+
+
+# (entry, ishape, oshape): bench ZST path, values slots path, refs inputs path, refs ZST path
+LOOM_SHAPES = [(0, 0, 0), (2, 3, 3), (4, 3, 2), (4, 1, 1)]
+
+
+def loop_scenarios(tier, panics=True):
+    out = []
+    for (e, i, o) in LOOM_SHAPES:
+        out.append(_loop(loop_case(e, i, o, 2, 1, 1)))                  # T=2, 1 round, all interleavings
+    out.append(_loop(loop_case(2, 3, 3, 2, 2, 2)))                      # sample size 2
+    out.append(_loop(loop_case(2, 3, 3, 2, 3, 1), pb=2))                # 2 rounds
+    out.append(_loop(loop_case(4, 3, 3, 3, 1, 1), pb=1))                # T=3
+    out.append(_loop(loop_case(2, 3, 3, 2, 1, 1, test=True)))           # test mode
+    if panics:
+        for site in range(5):
+            for thread in (0, 1):
+                out.append(_loop(loop_case(4, 3, 3, 2, 1, 1, panic={"site": site, "thread": thread, "nth": 0})))
+    if tier == "thorough":
+        out.append(_loop(loop_case(0, 0, 0, 3, 1, 1), pb=2))
+        out.append(_loop(loop_case(2, 3, 3, 2, 3, 1), pb=3))
+        out.append(_loop(loop_case(2, 3, 3, 2, 5, 1), pb=1))
+        out.append(_loop(loop_case(4, 3, 3, 2, 1, None, cost=[[0], [0], [60000], [0], [0]]), pb=2))  # tuned: 1 doubling
+        if panics:
+            for (e, i, o) in LOOM_SHAPES:
+                for site in range(5):
+                    for thread in (0, 1):
+                        out.append(_loop(loop_case(e, i, o, 2, 1, 1, panic={"site": site, "thread": thread, "nth": 0})))
+            for site in (0, 2, 3):
+                for thread in (0, 2):
+                    out.append(_loop(loop_case(4, 3, 3, 3, 1, 1, panic={"site": site, "thread": thread, "nth": 0}), pb=1))
+    seen, uniq = set(), []
+    import json as _j
+    for sc in out:
+        c = sc["case"]
+        p = c["panic"]
+        # panic sites that never execute for the shape are skipped
+        if p:
+            if p["site"] in (0, 1) and c["entry"] < 2:
+                continue
+            if p["site"] == 3 and c["oshape"] not in (1, 3):
+                continue
+            if p["site"] == 4 and not (c["entry"] >= 4 and c["ishape"] in (1, 3)):
+                continue
+        key = _j.dumps(sc, sort_keys=True)
+        if key not in seen:
+            seen.add(key)
+            uniq.append(sc)
+    return uniq
+
+
+def c03_loop_scenarios(tier):
+    out = []
+    for n in (0, 1, 2):
+        out.append(_loop(loop_case(2, 2, 0, 2, n, 1)))                 # n < T, n = T: all interleavings
+    out.append(_loop(loop_case(2, 2, 0, 2, 3, 1), pb=2))               # n mod T != 0, 2 rounds
+    out.append(_loop(loop_case(2, 2, 0, 2, 4, 2), pb=2))
+    out.append(_loop(loop_case(2, 2, 0, 2, 5, 1), pb=1))               # 3 rounds
+    for n in (1, 2, 3):
+        out.append(_loop(loop_case(0, 0, 0, 3, n, 1), pb=1))           # T = 3: n < T, n = T
+    if tier == "thorough":
+        out.append(_loop(loop_case(2, 2, 0, 2, 3, 1), pb=3))
+        out.append(_loop(loop_case(2, 2, 0, 2, 5, 1), pb=2))
+        out.append(_loop(loop_case(0, 0, 0, 3, 2, 1), pb=2))
+    return out
+
+
+L_NOTE = "Trusted: loom's scheduler and C11 memory model; the std facade models of Mutex / sync_channel(0) / park-unpark / Barrier / thread_local in harness/rt/src/shim_loom.rs (conformance scripts explored under loom, `./check C06 --tier thorough`); plain fields of the task block are not race-checked."
+
+prop("C06",
+     quick=[{"engine": "L", "prop": "C06", "scenarios": pool_scenarios("quick")}],
+     thorough=[{"engine": "L", "prop": "C06", "scenarios": pool_scenarios("thorough") + [{"kind": "shim", "script": s, "pb": None} for s in
+               ["rendezvous_value", "rendezvous_blocks", "rendezvous_disconnect", "rendezvous_two", "barrier_2x2", "barrier_3",
+                "park_token_first", "park_flag_loop", "park_stale_token", "mutex_lazy"]], "timeout": 3000}],
+     assumptions=[
+         "thread counts up to 4 workers (loom admits 5 threads); histories of up to 3 broadcasts; larger harnesses preemption-bounded as listed per scenario in coverage.engines[].bounds",
+         "std primitives are replaced by facade models (trusted, conformance-tested); plain non-atomic fields of the task block are not race-checked by loom",
+     ],
+     technique="loom DPOR (stateless exploration of every interleaving, C11 orderings honoured) of the real ThreadPool::broadcast/par_extend; per-execution oracle + loom causality check + liveness registry",
+     text="Every interleaving of caller and 1-4 workers for bounded broadcast histories and every panicking subset is executed on the real pool code; each execution is checked for exactly-once calls per index on distinct threads, completion before return, visibility of task writes (loom cell causality), result placement, no access to the task block after return (liveness ids) and worker reuse.",
+     note=L_NOTE, engine="L")
+
+prop("C07",
+     quick=[{"engine": "L", "prop": "C07", "scenarios": pool_scenarios("quick")}],
+     thorough=[{"engine": "L", "prop": "C07", "scenarios": pool_scenarios("thorough"), "timeout": 3000}],
+     assumptions=[
+         "the quantifier's 'randomised' schedules are not used (sampling is outside this family); coverage is the bounded-exhaustive scenario list",
+         "park/unpark is modelled by a per-thread binary token with one spurious wake-up per wait object (loom Notify)",
+     ],
+     technique="loom DPOR of the real pool with terminal-state analysis: no runnable thread while one is unfinished = deadlock / lost wake-up; unfinished thread after pool drop = leaked worker",
+     text="The same executions as C06; the oracle is the scheduler's own terminal-state analysis on every execution: the caller stuck in park (lost or stale wake-up), a worker stuck in recv, or a worker that does not exit after the pool is dropped are all reported as deadlock.",
+     note=L_NOTE, engine="L")
+
+prop("C08",
+     quick=[{"engine": "L", "prop": "C08", "scenarios": loop_scenarios("quick")}],
+     thorough=[{"engine": "L", "prop": "C08", "scenarios": loop_scenarios("thorough"), "timeout": 3000}],
+     assumptions=[
+         "T in {2,3}, 1-2 rounds; T=3 and multi-round harnesses are preemption-bounded as listed per scenario; larger T by 'randomised schedules' is not used (sampling)",
+         "one panic per run, at the first execution of a site on the caller or on a worker",
+     ],
+     technique="loom DPOR of the real multi-threaded sample loop (bench_loop_threaded + pool + barrier facade + loom thread-locals); trace oracle over the global event order; deadlock detection for the panic clause",
+     text="Every interleaving (within the listed preemption bounds) of T benchmark threads running the real sample loop is checked: in each round no start timestamp precedes another thread's last generation / counting / tally clear, no drop precedes another thread's end timestamp, each stored tally equals the thread's own timed operations, and a panic injected at any (thread, phase) ends the run with a panic on the caller and no deadlock.",
+     note=L_NOTE, engine="L")
+
+# loom slices of C01/C02/C03
+PROPS["C01"]["quick"].append({"engine": "L", "prop": "C01", "scenarios": loop_scenarios("quick")})
+PROPS["C01"]["thorough"].append({"engine": "L", "prop": "C01", "scenarios": loop_scenarios("thorough"), "timeout": 3000})
+PROPS["C02"]["quick"].append({"engine": "L", "prop": "C02", "scenarios": loop_scenarios("quick", panics=False)})
+PROPS["C02"]["thorough"].append({"engine": "L", "prop": "C02", "scenarios": loop_scenarios("thorough", panics=False), "timeout": 3000})
+PROPS["C03"]["quick"].append({"engine": "L", "prop": "C03", "scenarios": c03_loop_scenarios("quick")})
+PROPS["C03"]["thorough"].append({"engine": "L", "prop": "C03", "scenarios": c03_loop_scenarios("thorough"), "timeout": 3000})
